@@ -5,6 +5,9 @@ From NIC Require Import Base.SMap AppProtect.Model AppProtect.Spec AppProtect.Pr
 Import ListNotations.
 Open Scope string_scope.
 Open Scope list_scope.
+
+Section V.
+Context {fx : bool}.
 Open Scope Z_scope.
 
 Lemma no_flip st st' out kd key : usable st kd key = usable st' kd key -> flip_reported st st' out kd key.
@@ -17,12 +20,12 @@ Lemma remove_agree {A} k (m : smap A) k' : k' <> k -> lookup k' (remove k m) = l
 Proof. intros H. apply lookup_remove_neq. exact H. Qed.
 
 Lemma dos_policy_ev_reported en ob k o K : Inv ob ->
-  let st := spec_state en ob in
-  flip_reported st (fst (step st (EvDosPolicy k o))) (snd (step st (EvDosPolicy k o))) KDosPR K.
+  let st := spec_state fx en ob in
+  flip_reported st (fst (step fx st (EvDosPolicy k o))) (snd (step fx st (EvDosPolicy k o))) KDosPR K.
 Proof.
   intros [_ _ _ _ _ Wpr HK] st. subst st.
   unfold flip_reported, usable, stored, step, lift_d, dos_add_or_update_policy. cbn [fst snd dos].
-  change (dos (spec_state en ob)) with (spec_dos en ob).
+  change (dos (spec_state fx en ob)) with (spec_dos en ob).
   set (X := {| dpe_obj := o; dpe_valid := dp_valid o |}).
   change {| dpols := insert k X (dpols (spec_dos en ob)); dlogs := dlogs (spec_dos en ob);
             dprs := dprs (spec_dos en ob); d_enabled := d_enabled (spec_dos en ob) |}
@@ -37,12 +40,12 @@ Proof.
 Qed.
 
 Lemma dos_del_policy_ev_reported en ob k K : Inv ob ->
-  let st := spec_state en ob in
-  flip_reported st (fst (step st (EvDelDosPolicy k))) (snd (step st (EvDelDosPolicy k))) KDosPR K.
+  let st := spec_state fx en ob in
+  flip_reported st (fst (step fx st (EvDelDosPolicy k))) (snd (step fx st (EvDelDosPolicy k))) KDosPR K.
 Proof.
   intros [_ _ _ _ _ Wpr HK] st. subst st.
   unfold flip_reported, usable, stored, step, lift_d, dos_delete_policy. cbn [fst snd dos].
-  change (dos (spec_state en ob)) with (spec_dos en ob).
+  change (dos (spec_state fx en ob)) with (spec_dos en ob).
   destruct (lookup k (dpols (spec_dos en ob))) eqn:L.
   - change {| dpols := remove k (dpols (spec_dos en ob)); dlogs := dlogs (spec_dos en ob);
               dprs := dprs (spec_dos en ob); d_enabled := d_enabled (spec_dos en ob) |}
@@ -61,12 +64,12 @@ Proof.
 Qed.
 
 Lemma dos_logconf_ev_reported en ob k o K : Inv ob ->
-  let st := spec_state en ob in
-  flip_reported st (fst (step st (EvDosLogConf k o))) (snd (step st (EvDosLogConf k o))) KDosPR K.
+  let st := spec_state fx en ob in
+  flip_reported st (fst (step fx st (EvDosLogConf k o))) (snd (step fx st (EvDosLogConf k o))) KDosPR K.
 Proof.
   intros [_ _ _ _ _ Wpr HK] st. subst st.
   unfold flip_reported, usable, stored, step, lift_d, dos_add_or_update_logconf. cbn [fst snd dos].
-  change (dos (spec_state en ob)) with (spec_dos en ob).
+  change (dos (spec_state fx en ob)) with (spec_dos en ob).
   set (X := {| dle_obj := o; dle_valid := dl_valid o |}).
   change {| dpols := dpols (spec_dos en ob); dlogs := insert k X (dlogs (spec_dos en ob));
             dprs := dprs (spec_dos en ob); d_enabled := d_enabled (spec_dos en ob) |}
@@ -81,12 +84,12 @@ Proof.
 Qed.
 
 Lemma dos_del_logconf_ev_reported en ob k K : Inv ob ->
-  let st := spec_state en ob in
-  flip_reported st (fst (step st (EvDelDosLogConf k))) (snd (step st (EvDelDosLogConf k))) KDosPR K.
+  let st := spec_state fx en ob in
+  flip_reported st (fst (step fx st (EvDelDosLogConf k))) (snd (step fx st (EvDelDosLogConf k))) KDosPR K.
 Proof.
   intros [_ _ _ _ _ Wpr HK] st. subst st.
   unfold flip_reported, usable, stored, step, lift_d, dos_delete_logconf. cbn [fst snd dos].
-  change (dos (spec_state en ob)) with (spec_dos en ob).
+  change (dos (spec_state fx en ob)) with (spec_dos en ob).
   destruct (lookup k (dlogs (spec_dos en ob))) eqn:L.
   - change {| dpols := dpols (spec_dos en ob); dlogs := remove k (dlogs (spec_dos en ob));
               dprs := dprs (spec_dos en ob); d_enabled := d_enabled (spec_dos en ob) |}
@@ -150,10 +153,10 @@ Qed.
 (* ------------------------------------------------------------------------------------------ *)
 (* components an operation does not touch *)
 
-Lemma aop_logconfs w k o : logconfs (fst (add_or_update_policy w k o)) = logconfs w.
+Lemma aop_logconfs w k o : logconfs (fst (add_or_update_policy fx w k o)) = logconfs w.
 Proof.
   unfold add_or_update_policy. destruct (create_policy_ex o) as [pol [c|]]; [reflexivity|].
-  destruct (verify_policy_against_user_sigs (usersigs w) pol); reflexivity.
+  destruct (verify_policy_against_user_sigs fx (usersigs w) pol); reflexivity.
 Qed.
 Lemma dp_logconfs w k : logconfs (fst (delete_policy w k)) = logconfs w.
 Proof. unfold delete_policy. destruct (lookup k (policies w)); reflexivity. Qed.
@@ -161,10 +164,10 @@ Lemma aol_policies w k o : policies (fst (add_or_update_logconf w k o)) = polici
 Proof. unfold add_or_update_logconf. destruct (create_logconf_ex o) as [lc [c|]]; reflexivity. Qed.
 Lemma dl_policies w k : policies (fst (delete_logconf w k)) = policies w.
 Proof. unfold delete_logconf. destruct (lookup k (logconfs w)); reflexivity. Qed.
-Lemma busc_logconfs w sigs0 pr0 : logconfs (fst (build_user_sig_change w sigs0 pr0)) = logconfs w.
+Lemma busc_logconfs w sigs0 pr0 : logconfs (fst (build_user_sig_change fx w sigs0 pr0)) = logconfs w.
 Proof.
   unfold build_user_sig_change. destruct (reconcile_user_sigs sigs0) as [[s1 a] b].
-  destruct (verify_policies s1 (policies w)) as [[p1 c] d]. reflexivity.
+  destruct (verify_policies fx s1 (policies w)) as [[p1 c] d]. reflexivity.
 Qed.
 
 Lemma usable_log_eq st st' key : logconfs (waf st') = logconfs (waf st) -> usable st KLogConf key = usable st' KLogConf key.
@@ -179,8 +182,8 @@ Proof. intros E. unfold usable. rewrite E. reflexivity. Qed.
 
 Theorem step_flips_reported en ob ev kd key :
   Inv ob -> kd = KPolicy \/ kd = KLogConf \/ kd = KDosPR ->
-  let st := spec_state en ob in
-  flip_reported st (fst (step st ev)) (snd (step st ev)) kd key.
+  let st := spec_state fx en ob in
+  flip_reported st (fst (step fx st ev)) (snd (step fx st ev)) kd key.
 Proof.
   intros HI Hkd st.
   assert (Wp : wf (policies (waf st))) by (apply wf_mapk; apply (inv_pol _ HI)).
@@ -223,11 +226,11 @@ Lemma wf_reconcile sigs0 : wf sigs0 -> wf (fst (fst (reconcile_user_sigs sigs0))
 Proof. intros W. unfold reconcile_user_sigs. cbn [fst]. apply wf_apply_writes. exact W. Qed.
 
 Lemma busc_usersigs w sigs0 pr0 :
-  usersigs (fst (build_user_sig_change w sigs0 pr0)) = fst (fst (reconcile_user_sigs sigs0)) /\
-  o_usersigs (snd (build_user_sig_change w sigs0 pr0)) = Some (all_user_sig_keys (fst (fst (reconcile_user_sigs sigs0)))).
+  usersigs (fst (build_user_sig_change fx w sigs0 pr0)) = fst (fst (reconcile_user_sigs sigs0)) /\
+  o_usersigs (snd (build_user_sig_change fx w sigs0 pr0)) = Some (all_user_sig_keys (fst (fst (reconcile_user_sigs sigs0)))).
 Proof.
   unfold build_user_sig_change. destruct (reconcile_user_sigs sigs0) as [[s1 a] b].
-  destruct (verify_policies s1 (policies w)) as [[p1 c] d]. split; reflexivity.
+  destruct (verify_policies fx s1 (policies w)) as [[p1 c] d]. split; reflexivity.
 Qed.
 
 Lemma usable_sig_iff st key :
@@ -252,8 +255,8 @@ Definition sig_op_effective (st : state) (ev : event) : bool :=
 
 Theorem usersig_list_complete st ev :
   wf (usersigs (waf st)) -> sig_op_effective st ev = true ->
-  exists l, o_usersigs (snd (step st ev)) = Some l /\
-            forall key, In key l <-> usable (fst (step st ev)) KUserSig key = true.
+  exists l, o_usersigs (snd (step fx st ev)) = Some l /\
+            forall key, In key l <-> usable (fst (step fx st ev)) KUserSig key = true.
 Proof.
   intros W Heff. destruct ev as [k o|k|k o|k|k o|k|k o|k|k o|k|o|k]; try discriminate.
   - unfold step, lift_w, add_or_update_usersig. destruct (create_usersig_ex o) as [sg e].
@@ -273,7 +276,7 @@ Qed.
 (* the deletion of an absent key changes nothing (but reports the empty list: F30) *)
 Theorem usersig_delete_absent st k :
   stored st KUserSig k = false ->
-  fst (step st (EvDelUserSig k)) = st /\ o_usersigs (snd (step st (EvDelUserSig k))) = Some [].
+  fst (step fx st (EvDelUserSig k)) = st /\ o_usersigs (snd (step fx st (EvDelUserSig k))) = Some [].
 Proof.
   unfold stored, mem, step, lift_w, delete_usersig. destruct (lookup k (usersigs (waf st))); [discriminate|].
   intros _. destruct st as [w d]. split; reflexivity.
@@ -282,12 +285,12 @@ Qed.
 (* operations on other kinds never change which signatures are in force *)
 Theorem other_events_keep_sigs st ev key :
   is_sig_event ev = false ->
-  usable (fst (step st ev)) KUserSig key = usable st KUserSig key /\ o_usersigs (snd (step st ev)) = None.
+  usable (fst (step fx st ev)) KUserSig key = usable st KUserSig key /\ o_usersigs (snd (step fx st ev)) = None.
 Proof.
   intros H. destruct ev as [k o|k|k o|k|k o|k|k o|k|k o|k|o|k]; try discriminate;
     unfold step, lift_w, lift_d, usable, get_app_resource; cbn [fst snd waf].
   - unfold add_or_update_policy. destruct (create_policy_ex o) as [pol [c|]]; [split; reflexivity|].
-    destruct (verify_policy_against_user_sigs (usersigs (waf st)) pol); split; reflexivity.
+    destruct (verify_policy_against_user_sigs fx (usersigs (waf st)) pol); split; reflexivity.
   - unfold delete_policy. destruct (lookup k (policies (waf st))); split; reflexivity.
   - unfold add_or_update_logconf. destruct (create_logconf_ex o) as [lc [c|]]; split; reflexivity.
   - unfold delete_logconf. destruct (lookup k (logconfs (waf st))); split; reflexivity.
@@ -302,19 +305,19 @@ Qed.
 (* a signature that is still stored and is not in force after a signature operation, and that was in
    force before or is the object of the operation, is named in a problem *)
 Lemma busc_problems w sigs0 pr0 p :
-  In p pr0 \/ In p (snd (reconcile_user_sigs sigs0)) -> In p (o_problems (snd (build_user_sig_change w sigs0 pr0))).
+  In p pr0 \/ In p (snd (reconcile_user_sigs sigs0)) -> In p (o_problems (snd (build_user_sig_change fx w sigs0 pr0))).
 Proof.
   unfold build_user_sig_change. destruct (reconcile_user_sigs sigs0) as [[s1 a] b].
-  destruct (verify_policies s1 (policies w)) as [[p1 c] d]. cbn [snd o_problems].
+  destruct (verify_policies fx s1 (policies w)) as [[p1 c] d]. cbn [snd o_problems].
   intros [H|H]; apply in_or_app; [left; exact H|right; apply in_or_app; left; exact H].
 Qed.
 
 Theorem usersig_problem_reported st ev key :
   wf (usersigs (waf st)) -> is_sig_event ev = true ->
-  stored (fst (step st ev)) KUserSig key = true ->
-  usable (fst (step st ev)) KUserSig key = false ->
+  stored (fst (step fx st ev)) KUserSig key = true ->
+  usable (fst (step fx st ev)) KUserSig key = false ->
   (usable st KUserSig key = true \/ exists o, ev = EvUserSig key o) ->
-  exists c, In (prob KUserSig key c) (o_problems (snd (step st ev))).
+  exists c, In (prob KUserSig key c) (o_problems (snd (step fx st ev))).
 Proof.
   intros W Hev Hst Hu Hbefore.
   destruct ev as [k o|k|k o|k|k o|k|k o|k|k o|k|o|k]; try discriminate.
@@ -373,14 +376,14 @@ Qed.
 (* DoS policies and log configurations have no getter; their own events always report them *)
 
 Theorem dos_policy_events_reported st k :
-  (forall o, let out := snd (step st (EvDosPolicy k o)) in
+  (forall o, let out := snd (step fx st (EvDosPolicy k o)) in
              In (chg (op_for (dp_valid o)) KDosPolicy k) (o_changes out) /\
              (dp_valid o = false -> In (prob KDosPolicy k PcValidation) (o_problems out))) /\
-  (forall o, let out := snd (step st (EvDosLogConf k o)) in
+  (forall o, let out := snd (step fx st (EvDosLogConf k o)) in
              In (chg (op_for (dl_valid o)) KDosLogConf k) (o_changes out) /\
              (dl_valid o = false -> In (prob KDosLogConf k PcValidation) (o_problems out))) /\
-  (stored st KDosPolicy k = true -> In (chg OpDelete KDosPolicy k) (o_changes (snd (step st (EvDelDosPolicy k))))) /\
-  (stored st KDosLogConf k = true -> In (chg OpDelete KDosLogConf k) (o_changes (snd (step st (EvDelDosLogConf k))))).
+  (stored st KDosPolicy k = true -> In (chg OpDelete KDosPolicy k) (o_changes (snd (step fx st (EvDelDosPolicy k))))) /\
+  (stored st KDosLogConf k = true -> In (chg OpDelete KDosLogConf k) (o_changes (snd (step fx st (EvDelDosLogConf k))))).
 Proof.
   repeat split.
   - unfold step, lift_d, dos_add_or_update_policy. destruct (reeval _ _) as [[? ?] ?]. cbn.
@@ -396,3 +399,5 @@ Proof.
   - unfold stored, mem, step, lift_d, dos_delete_logconf. destruct (lookup k (dlogs (dos st))); [|discriminate].
     intros _. destruct (reeval _ _) as [[? ?] ?]. cbn. left. reflexivity.
 Qed.
+
+End V.
